@@ -1,7 +1,7 @@
 """C06 — SubgraphSearchEngine.find_subgraph_mappings = label-preserving monomorphisms.
 
 Round 5: the model receives the graphs with their WHOLE attribute dictionaries and the selections as name lists
-(run_sel_set / run_sel_list / run_sel_api of model/C06_Attrs.v); history cases may carry "family" (targeted histories).
+(run_tr_set / run_tr_list of model/C06_Trace.v, run_sel_api of model/C06_Attrs.v); history cases may carry "family" (targeted histories).
 
 case = {"kind", "host": G, "pattern": G, "na": [node attrs], "ea": [edge attrs],
         "cfgs": [[strategy, max_results|None, threshold|None, strict_cc_count, pre_filter], ...],
@@ -16,7 +16,8 @@ vf2 = table: order-sensitive case (result limits).  The complete enumeration of 
              enumerator for a call that was never recorded); results are compared as LISTS, and the model first checks
              inside Coq that every recorded enumeration is a permutation of the verified enumerator's output (table_ok2,
              flag compared with the constant 1; proved to imply the VF2 premise of the theorems).
-Observable: gwf flag, [table_ok flag,] components of host, components of pattern, per configuration (pre-filter verdict, result).
+Observable: gwf flag, [table_ok flag,] components of host, components of pattern, per configuration (pre-filter verdict, result,
+trace of VF2 calls = [host part, pattern part, number of monomorphisms pulled from the iterator] in call order).
 """
 import itertools
 import math
@@ -26,7 +27,7 @@ from ..tok import S
 from ..gen import graphs as G
 
 PID = "C06"
-COQ_HEADER = ("From Coq Require Import List NArith.\nFrom SK Require Import lib.Tok lib.LGraph model.C06_Model model.C06_Attrs.\n"
+COQ_HEADER = ("From Coq Require Import List NArith.\nFrom SK Require Import lib.Tok lib.LGraph model.C06_Model model.C06_Attrs model.C06_Trace.\n"
               "Import ListNotations.\n")
 SHARD = 250
 IMPL_TIMEOUT = 900
@@ -75,13 +76,13 @@ TESTED_NOT_PROVED = ["inputs are not modified (pure model; the adapter deep-comp
                      "call spellings that do not reach the model (instance vs class, host/pattern by keyword, tuples for attribute lists)",
                      "the VF2 contract for inputs that were not run (premise of the theorems; discharged inside Coq for every case that "
                      "is run, see TRUSTED_BASE)"]
-LEVEL_TEXT = ("Machine-checked proof (Coq, all inputs, 25 theorems closed under the global context) over an executable, "
+LEVEL_TEXT = ("Machine-checked proof (Coq, all inputs, 31 theorems closed under the global context) over an executable, "
               "structure-following model of SubgraphSearchEngine.find_subgraph_mappings parameterised by the VF2 enumeration: "
               "ALL = exactly the label-preserving monomorphisms, duplicate-free (under the VF2 contract, which the verified enumerator "
               "provably meets); COMPONENT = exactly those sending different pattern components into different host components, duplicate-free, all of "
               "them when the host has fewer components, [] under the strict_cc_count guard; BACKTRACK = COMPONENT if non-empty else ALL; "
               "for every max_results/threshold the result is the prefix of length min of the unlimited list, emptied past the threshold, "
-              "or (comp/bt) the per-component enumeration guard fired; the pre-filter skips only when there is provably no match or its documented estimate guard fired; the call interface (strategy spellings, option defaults) is modelled and specified; the attribute dictionaries, the selections node_attrs / edge_attrs and the two match closures are modelled (the exhaustive strategy is exact in terms of the caller's dictionaries; a selection is a set of names; a larger selection only removes matches).  Model tied to the code on every run by comparing result "
+              "or (comp/bt) the per-component enumeration guard fired; the pre-filter skips only when there is provably no match or its documented estimate guard fired; the call interface (strategy spellings, option defaults) is modelled and specified; the attribute dictionaries, the selections node_attrs / edge_attrs and the two match closures are modelled (the exhaustive strategy is exact in terms of the caller's dictionaries; a selection is a set of names; a larger selection only removes matches; the component-aware and fallback clauses are stated on the caller's graphs as well); the VF2 calls of every search (host part, pattern part, number of monomorphisms pulled) are modelled and compared (closed form of the consumption; never more than threshold + 1 per call).  Model tied to the code on every run by comparing result "
               "multisets/lists, component partitions and pre-filter verdicts on exhaustive small scopes and random populations.")
 LEVEL_NOTE = ("Trusted: Coq kernel, the model, the harness encoder, the VF2 contract (monitored per case; networkx itself is not "
               "verified).  Not proved: input immutability of the Python code (monitored).")
@@ -152,11 +153,14 @@ def impl(case):
     ordered = case.get("vf2") is not None
     styles = case.get("styles") or ["kw"] * len(case["cfgs"])
     out = []
-    for cfg, style in zip(case["cfgs"], styles):
-        r = _call(H, P, case, cfg, style)
-        q = SSE._quick_pre_filter(H, P, list(case["na"]), _thr(cfg[2]))
-        ms = [_mp(m) for m in r]
-        out.append([bool(q), ms if ordered else S(ms)])
+    with record_vf2() as rec:
+        for cfg, style in zip(case["cfgs"], styles):
+            rec.clear()
+            r = _call(H, P, case, cfg, style)
+            tr = rec.trace()
+            q = SSE._quick_pre_filter(H, P, list(case["na"]), _thr(cfg[2]))
+            ms = [_mp(m) for m in r]
+            out.append([bool(q), ms if ordered else S(ms), tr])
     obs = [_comps_obs(H), _comps_obs(P), out]
     # leading flags: the model evaluates the input premise gwf of the theorems (and, for ordered cases, the VF2
     # contract monitor table_ok); both must be true
@@ -247,6 +251,11 @@ def _run_history(case):
     obj = {"host": G.to_nx(case["host"]), "pattern": G.to_nx(case["pattern"])}
     eng = SSE()
     results, out = [], []
+    with record_vf2() as rec:
+        return _run_history_steps(case, obj, eng, results, out, rec)
+
+
+def _run_history_steps(case, obj, eng, results, out, rec):
     for st in case["steps"]:
         if st["op"] == "edit":
             _edit_nx(obj[st["side"]], st["edit"])
@@ -262,30 +271,32 @@ def _run_history(case):
         else:
             Hh, Pp = (obj["pattern"], obj["host"]) if st.get("swap") else (obj["host"], obj["pattern"])
             sub = dict(na=st["na"], ea=st["ea"])
+            rec.clear()
             r = _call(Hh, Pp, sub, st["cfg"], st.get("style", "kw"), engine=eng)
             results.append(r)
-            out.append((Hh, Pp, [dict(m) for m in r], sub, st["cfg"]))
+            out.append((Hh, Pp, [dict(m) for m in r], sub, st["cfg"], rec.trace()))
     return out
 
 
 def _impl_history(case):
     from synkit.Graph.Matcher.subgraph_matcher import SubgraphSearchEngine as SSE
     out = []
-    for Hh, Pp, r, sub, cfg in _run_history(case):
+    for Hh, Pp, r, sub, cfg, tr in _run_history(case):
         # the graphs may have been edited since; the snapshot components / pre-filter verdict of THIS step come from the
         # step's own snapshot (rebuilt fresh from the JSON form computed at generation time)
-        out.append(S([_mp(m) for m in r]))
+        out.append((S([_mp(m) for m in r]), tr))
     steps = []
-    for snap, res in zip(case["snaps"], out):
+    for snap, (res, tr) in zip(case["snaps"], out):
         H, P = G.to_nx(snap["host"]), G.to_nx(snap["pattern"])
         q = SSE._quick_pre_filter(H, P, list(snap["na"]), _thr(snap["cfg"][2]))
-        steps.append([True, _comps_obs(H), _comps_obs(P), [[bool(q), res]]])
+        steps.append([True, _comps_obs(H), _comps_obs(P), [[bool(q), res, tr]]])
     return steps
 
 
 class record_vf2:
     """Context manager: wrap networkx GraphMatcher as seen by subgraph_matcher so that the COMPLETE enumeration of
-    every subgraph_monomorphisms_iter call is recorded (keyed by the node lists of the two graphs)."""
+    every subgraph_monomorphisms_iter call is recorded (keyed by the node lists of the two graphs), together with the
+    number of monomorphisms the search actually pulled from the iterator (the trace of the call)."""
 
     def __enter__(self):
         import synkit.Graph.Matcher.subgraph_matcher as SM
@@ -296,8 +307,14 @@ class record_vf2:
         class RecGM(self.orig):
             def subgraph_monomorphisms_iter(self_):
                 full = [dict(m) for m in super().subgraph_monomorphisms_iter()]
-                rec.append((list(self_.G1.nodes), list(self_.G2.nodes), full))
-                return iter(full)
+                entry = [list(self_.G1.nodes), list(self_.G2.nodes), full, 0]
+                rec.append(entry)
+
+                def pull():
+                    for m in full:
+                        entry[3] += 1
+                        yield m
+                return pull()
         SM.GraphMatcher = RecGM
         return self
 
@@ -306,13 +323,20 @@ class record_vf2:
 
     def table(self):
         seen, out = set(), []
-        for hn, pn, full in self.rec:
+        for hn, pn, full, _ in self.rec:
             k = (frozenset(hn), frozenset(pn))
             if k in seen:
                 continue
             seen.add(k)
             out.append([sorted(hn), sorted(pn), [sorted([p, h] for h, p in iso.items()) for iso in full]])
         return out
+
+    def trace(self):
+        """The VF2 calls made since the last clear(), in order: [host part, pattern part, items pulled]."""
+        return [[S(sorted(hn)), S(sorted(pn)), k] for hn, pn, _, k in self.rec]
+
+    def clear(self):
+        del self.rec[:]
 
 
 def attach_vf2(case):
@@ -425,7 +449,7 @@ def coq_case(case):
             hp = _coq_pair(snap["host"], snap["pattern"], snap["na"], snap["ea"])
             if hp is None:
                 return None
-            terms.append("run_sel_set %s %s" % (hp, clist([_coq_cfg(snap["cfg"])])))
+            terms.append("run_tr_set %s %s" % (hp, clist([_coq_cfg(snap["cfg"])])))
         return "L %s" % clist(["(%s)" % t for t in terms])
     hp = _coq_pair(case["host"], case["pattern"], case["na"], case["ea"])
     if hp is None:
@@ -443,11 +467,11 @@ def coq_case(case):
         return "run_sel_api %s %s" % (hp, calls)
     cfgs = clist([_coq_cfg(c) for c in case["cfgs"]])
     if case.get("vf2") is None:
-        return "run_sel_set %s %s" % (hp, cfgs)
+        return "run_tr_set %s %s" % (hp, cfgs)
     tab = clist(["(%s, %s, %s)" % (clist([cN(x) for x in hn]), clist([cN(x) for x in pn]),
                                     clist([clist(["(%s, %s)" % (cN(a), cN(b)) for a, b in m]) for m in ms]))
                  for hn, pn, ms in case["vf2"]])
-    return "run_sel_list %s %s %s" % (hp, tab, cfgs)
+    return "run_tr_list %s %s %s" % (hp, tab, cfgs)
 
 
 # ------------------------------------------------------------------ independent property oracle
@@ -561,7 +585,7 @@ def _oracle_history(case):
         run = _run_history(case)
     except Exception as e:
         return [dict(clause="raises", detail="history: %s: %s" % (type(e).__name__, e))]
-    for i, ((Hh, Pp, r, sub, cfg), snap) in enumerate(zip(run, case["snaps"])):
+    for i, ((Hh, Pp, r, sub, cfg, _tr), snap) in enumerate(zip(run, case["snaps"])):
         fresh = _call(G.to_nx(snap["host"]), G.to_nx(snap["pattern"]), snap, snap["cfg"])
         if sorted(sorted(m.items()) for m in r) != sorted(sorted(m.items()) for m in fresh):
             fails.append(dict(clause="history-step-differs-from-fresh",
@@ -781,7 +805,7 @@ def distribution(cases, obss):
             inc(d["host_components"], len(o[0]["__set__"]))
             inc(d["pattern_components"], len(o[1]["__set__"]))
             full = None
-            for cfg, (q, r) in zip(c["cfgs"], o[2]):
+            for cfg, (q, r, _tr) in zip(c["cfgs"], o[2]):
                 inc(d["strategies"], cfg[0])
                 inc(d["max_results"], cfg[1])
                 inc(d["threshold"], cfg[2])
